@@ -65,6 +65,16 @@ DESC = {
  "S60": ("C17", "`hash-join-on-one-eq` accepts a key that depends on its own side instead of rejecting keys that depend on the other side", "join whose whole condition is one equality with one side mixing columns of both inputs (`a = c + b`)"),
  "S61": ("C19", "`normalize_join_key` turns integer keys into DOUBLE", "equi-join / IN subquery on BIGINT values above 2^53 that round to the same double"),
  "S62": ("C20", "COPY FROM trims every field before the NULL test and before storing it", "a text value that starts or ends with white space, or is white space only"),
+ "S63": ("C01", "disk scan merges row-sets in key order only when the first key column is among the requested columns", "ORDER BY the key of a keyed disk table without selecting it, >= 2 overlapping row-sets (sort elimination + column pruning meet)"),
+ "S64": ("C02", "merge join: `lkey < rkey` instead of `<=` in the advance-left arm", "merge join with a NULL-containing key on both sides whose non-NULL parts are equal: the join ends there"),
+ "S65": ("C03", "CREATE TABLE checks for an existing name before taking the DDL lock", "two sessions creating the same name concurrently (second manifest entry stays), then shutdown + reopen"),
+ "S66": ("C04", "manifest replay tolerates a truncated tail only inside a transaction (`e.is_eof() && begin`)", "crash leaving 1-6 bytes of the `\"Begin\"` marker of a manifest append"),
+ "S67": ("C07", "delete-vector id generator restored with `fetch_max(id)` instead of `id + 1` at open", "DELETE, reopen, then a DELETE touching another row-set of the same table: both row-sets resolve to the new vector"),
+ "S68": ("C08", "a commit moves the content out of the latest snapshot when its Arc is unshared instead of cloning it", "reader pinning the old epoch while an overlapping writer's commit is between manifest write and publish"),
+ "S69": ("C09", "the compactor pins its snapshot once per pass (same idea as S46, written independently)", "DELETE committing between the pass-level pin and the compactor's lock on that table"),
+ "S70": ("C10", "CREATE TABLE reads a copy of the schema catalog before waiting for the DDL lock", "two concurrent CREATE TABLE of one name: the refused one leaves a manifest record; reopen fails"),
+ "S71": ("C15", "merge join reads its inputs with `while let Some(Ok(..))`: an Err item ends the stream", "error or panic in an input of a merge join (disk key join or sorted derived tables)"),
+ "S72": ("C17", "`merge-join` rule matches every hash join with a true residual, also semi/anti", "semi/anti join on the leading key columns of two keyed disk tables large enough for a hash join"),
  "S52": ("C10", "reverse of repair db497b9: the binder fetches the table by id with unwrap() after resolving its name", "DROP TABLE by another session between the binder's two catalog lookups (multi-thread runtime)"),
 }
 STRENGTHENED = {
